@@ -134,13 +134,14 @@ static int rt_f(uint32_t bits, char tb, char *textout) {
     r = flatcc_json_parser_float(&ctx, b, b + k + 1, &g); if (ctx.error || r != b + k || f2u(g) != bits) bad |= 2;
     free(b); return bad;
 }
+static int rt_d_one_ulp;   /* set by rt_d: every wrong result was a complete parse that is exactly one ulp away */
 static int rt_d(uint64_t bits, char tb, char *textout) {
     char *b = (char *)malloc(40); int k, bad = 0; double g = 1.0; const char *r; flatcc_json_parser_t ctx;
-    memset(b, 0, 40); k = print_double(u2d(bits), b);
+    memset(b, 0, 40); k = print_double(u2d(bits), b); rt_d_one_ulp = 1;
     if (textout) { memcpy(textout, b, (size_t)k + 1); }
-    r = parse_double(b, (size_t)k, &g); if (r != b + k || d2u(g) != bits) bad |= 1;
+    r = parse_double(b, (size_t)k, &g); if (r != b + k || d2u(g) != bits) { bad |= 1; if (r != b + k || (d2u(g) + 1 != bits && d2u(g) != bits + 1)) rt_d_one_ulp = 0; }
     b[k] = tb; g = 1.0; ctx_init(&ctx, b);
-    r = flatcc_json_parser_double(&ctx, b, b + k + 1, &g); if (ctx.error || r != b + k || d2u(g) != bits) bad |= 2;
+    r = flatcc_json_parser_double(&ctx, b, b + k + 1, &g); if (ctx.error || r != b + k || d2u(g) != bits) { bad |= 2; if (ctx.error || r != b + k || (d2u(g) + 1 != bits && d2u(g) != bits + 1)) rt_d_one_ulp = 0; }
     free(b); return bad;
 }
 static int finite32(uint32_t b) { return (b & 0x7f800000u) != 0x7f800000u; }
@@ -300,8 +301,9 @@ int main(void) {
             }
             printf("DONE %" PRIu64 " %" PRIu64 " %" PRIu64 " %d\n", cnt, nbad, first, firstcode);
         } else if (!strcmp(t[0], "frand64") && n == 3) {
-            /* frand64 <seed> <count>: pseudo-random finite double patterns, a quarter of them denormal or near a binade edge */
-            uint64_t cnt = strtoull(t[2], 0, 10), k, done = 0, nbad = 0, first = 0; int firstcode = 0; rng_state = strtoull(t[1], 0, 10) * 2654435761u + 1442695040888963407ull;
+            /* frand64 <seed> <count>: pseudo-random finite double patterns, a quarter of them denormal or near a binade edge.
+               reply: DONE <count> <mismatches> <first> <code> <mismatches outside biased exponent 2..11 or not exactly one ulp off> <first of those> */
+            uint64_t cnt = strtoull(t[2], 0, 10), k, done = 0, nbad = 0, first = 0, nout = 0, firstout = 0; int firstcode = 0; rng_state = strtoull(t[1], 0, 10) * 2654435761u + 1442695040888963407ull;
             for (k = 0; k < cnt; ++k) {
                 uint64_t x = rng_next(); int sel = (int)(rng_next() % 8), bad;
                 if (sel == 0) x &= 0x800fffffffffffffull;                             /* denormal */
@@ -309,9 +311,12 @@ int main(void) {
                 else if (sel == 2) x = (x | 0x000fffffffffffffull) - (rng_next() % 4); /* just below a power of two */
                 if (!finite64(x)) continue;
                 bad = rt_d(x, terms[k % sizeof terms], 0);
-                ++done; if (bad) { if (!nbad) { first = x; firstcode = bad; } ++nbad; }
+                ++done; if (bad) { unsigned be = (unsigned)((x >> 52) & 0x7ff);
+                    if (!nbad) { first = x; firstcode = bad; } ++nbad;
+                    /* mismatches outside biased exponent 2..11 are counted separately (the class of a known finding must not hide others) */
+                    if (be < 2 || be > 11 || !rt_d_one_ulp) { if (!nout) firstout = x; ++nout; } }
             }
-            printf("DONE %" PRIu64 " %" PRIu64 " %" PRIu64 " %d\n", done, nbad, first, firstcode);
+            printf("DONE %" PRIu64 " %" PRIu64 " %" PRIu64 " %d %" PRIu64 " %" PRIu64 "\n", done, nbad, first, firstcode, nout, firstout);
         } else printf("BAD\n");
         fflush(stdout);
     }
